@@ -54,12 +54,15 @@ class Grammar:
         self.fam1 = {}            # scripted actions of the second action family (C13): ctype -> kind
         self.switches = {}        # attached switches: str(family) -> { ctype: [name, a, b] }
         self.maxlen = maxlen      # (quick, thorough) exhaustive input length, None = default
+        self.inherit = {}         # i -> j: rule Ri is declared as `struct Ri : Rj {}` (rules[i] must be a copy of rules[j]): a distinct rule
+                                  # type with the same body - Rj's own hooks, actions and selectors do not apply to it
 
     def to_json(self):
         return {"rules": [r.to_json() for r in self.rules], "actions": self.actions,
                 "errmsg": {str(k): v for k, v in self.errmsg.items()}, "nonempty_slots": self.nonempty_slots,
                 "veto": self.veto, "throw": self.throw, "alphabet": self.alphabet, "note": self.note,
-                "extra": self.extra, "maxlen": self.maxlen, "selectors": self.selectors, "fam1": self.fam1, "switches": self.switches, "analyze": self.analyze, "mustif": self.mustif}
+                "extra": self.extra, "maxlen": self.maxlen, "selectors": self.selectors, "fam1": self.fam1, "switches": self.switches, "analyze": self.analyze, "mustif": self.mustif,
+                "inherit": {str(k): v for k, v in self.inherit.items()}}
 
     @staticmethod
     def from_json(j):
@@ -72,6 +75,7 @@ class Grammar:
         g.analyze = j.get("analyze", False)
         g.mustif = j.get("mustif")
         g.switches = j.get("switches", {})
+        g.inherit = {int(k): int(v) for k, v in j.get("inherit", {}).items()}
         return g
 
     def nslots(self):
@@ -231,7 +235,8 @@ def ctype(n):
 
 
 def pretty(g):
-    return " ".join("struct R%d : %s {};" % (i, ctype(r)) for i, r in enumerate(g.rules))
+    inh = getattr(g, "inherit", {})
+    return " ".join("struct R%d : %s {};" % (i, ("R%d" % inh[i]) if i in inh else ctype(r)) for i, r in enumerate(g.rules))
 
 
 # ----------------------------------------------------------------------------- lowering
@@ -680,7 +685,7 @@ def emit_grammar(g, gi, cfgset_macro="VF_CFGS"):
     out.append("template< typename R > struct act;")
     out.append("template< typename R > struct act1;")
     for i, r in enumerate(g.rules):
-        body = ctype(r)
+        body = ("R%d" % g.inherit[i]) if i in g.inherit else ctype(r)
         if i in g.errmsg:
             out.append("struct R%d : %s { static constexpr const char* error_message = \"%s\"; };" % (i, body, g.errmsg[i]))
         else:
